@@ -6,18 +6,20 @@ CONFIG = dict(
                "model of TableManager's subscription machinery: per-shard snapshot invariant, exact reconstruction of the "
                "pre- and post-policy Adj-RIB-In by snapshot + live events once writers finish, last event per (peer, prefix, "
                "path-id) = current state, PeerDown forwarded only after PeerUp, and the master theorem that the C18 reference "
-               "checker accepts every model schedule of every case without purge-class operations and without BMP connections "
-               "(the full statement is refuted in Lean by the purge-class witness, finding S28b).  The model is tied to the code "
+               "checker accepts every model schedule of every case without consumer tasks (BMP connection, MRT dump, watch stream) - the "
+               "purge class (GR-retaining session end, drop_stale_families, drop_families, mark_llgr_stale, "
+               "drop_llgr_stale_families) included since the purges withdraw what they remove (S28b repaired).  The model is tied to the code "
                "by running the REAL TableManager, the REAL Global peer table, the REAL PeerSession::finish_session teardown and "
                "the REAL BmpClient::serve (on a loopback TCP connection whose bytes are decoded), the REAL MrtDumper::serve (BGP4MP records read back from its file) and the REAL gRPC watch_event handler (response stream polled) under a deterministic scheduler "
                "that releases one OS thread at a time between the cfg-guarded scheduling points in table_manager.rs, on the same "
                "schedules as the model, diffing every received event history, every BMP message written, return values and the "
                "final iter_reach/iter_reach_post; the reference checker is the oracle on the real observations.",
     level_note="Theorem-backed: channel subscribers (TableManager::subscribe) under insert/remove/soft-reset-in (any thread)/"
-               "policy change/session up/non-retaining down/subscribe/unsubscribe.  Hypothesis-backed (model = implementation on the "
+               "policy change/session up/non-retaining down/GR-retaining down/the four bulk purges/subscribe/unsubscribe; a key the table "
+               "holds as a GR-retained (stale) route of an ended session is not judged (the observation carries a per-key stale flag; "
+               "the subscriber was told PeerDown, retention is C10's subject).  Hypothesis-backed (model = implementation on the "
                "generated stream + oracle on the real bytes, no theorem): the three consumer clauses (what BmpClient::serve writes, what the gRPC WatchEvent stream carries, the last BGP4MP "
-               "record of an MRT updates dump = RIB) and the purge class (GR-retaining session end, drop_stale_families, drop_families, mark_llgr_stale, "
-               "drop_llgr_stale_families), where the property fails (open findings S28b, S28e).  Trusted: Lean kernel; axioms "
+               "record of an MRT updates dump = RIB).  Trusted: Lean kernel; axioms "
                "propext/Classical.choice/Quot.sound; hand-written model; harness glue (session establishment = session_addrs store "
                "then peer_up, transcribed from apply_outputs/on_established because on_established needs a live TCP stream; fresh "
                "Source + prefix counter per session; import_policy.store as the common end of every policy-assignment path; BMP "
@@ -28,8 +30,7 @@ CONFIG = dict(
                "record for a session end, so it is judged only for peers that never end a session.",
     lean_modules=["Rbgp.Monitor.Props"],
     theorems=[
-        "Rbgp.Monitor.Props.check_run_ok_partial",
-        "Rbgp.Monitor.Props.C18_full_fails",
+        "Rbgp.Monitor.Props.check_run_ok",
         "Rbgp.Monitor.Props.reachable_inv",
         "Rbgp.Monitor.Props.snapshot_invariant",
         "Rbgp.Monitor.Props.reconstruct_exact",
@@ -74,7 +75,8 @@ CONFIG = dict(
                            "the window between subscribers.load() and the sends inside peer_up/peer_down (one atomic step in the model)",
                            "the window between EndOfSnapshot and serve's read of the global peer table (one atomic step)",
                            "session establishment (on_established) is reduced to session_addrs store + register_peer (with the peer's ADD-PATH families) + peer_up",
-                           "the consumer clauses (BMP connection, MRT dump, gRPC watch stream) and the purge class are hypothesis-backed (no theorem)"],
+                           "the consumer clauses (BMP connection, MRT dump, gRPC watch stream) are hypothesis-backed (no theorem)",
+                           "GR/LLGR retention itself (which routes stay, for how long): a retained stale key is skipped by the checker"],
     assumptions=["a peer address is owned by one session task at a time (writer thread i = peer i): sessions of the same peer are sequential",
                  "the BMP-connection clause is judged only when every session announces routes between its up and its down"],
     claimed=True,
@@ -233,7 +235,8 @@ def gen_purge(r):
     for _ in range(1 + r.below(3)):
         ops.append("(ins %d %d %d %d)" % (r.below(n), r.pick([0, 1, 2]), r.below(2), 1 + r.below(9)))
     tail = r.pick([["gdown", "purge"], ["gdown", "up", "(ins 0 0 0 3)", "purge"], ["gdown", "dropfam"],
-                   ["gdown", "llgr", "lpurge"], ["dropfam"], ["gdown", "up", "purge", "down"], ["llgr", "lpurge"]])
+                   ["gdown", "llgr", "lpurge"], ["dropfam"], ["gdown", "up", "purge", "down"], ["llgr", "lpurge"],
+                   ["gdown"], ["gdown", "up", "(ins 0 0 0 3)"], ["gdown", "up", "(ins 0 1 0 4)", "(rem 0 0 0)", "purge"]])
     ops += tail
     threads = [("w", ops), ("s", r.pick([["(sub t)"], ["(sub t)"], ["bmp"], ["(sub f)"], ["(watch t f)"]]))]
     if r.chance(1, 3):
@@ -370,7 +373,7 @@ def gen(seed, n, tier):
             out.append(gen_softreset(r))
         elif x < 84:
             out.append(gen_peers(r))
-        elif x < 88:
+        elif x < 90:
             out.append(gen_purge(r))
         elif x < 97:
             out += gen_sequential_points(r)
